@@ -54,6 +54,16 @@ func (eng *Engine) exec(fn *ssa.Function, in ssa.Instruction, env *Env) []*Env {
 			env.vals[t] = a
 			return []*Env{env}
 		}
+		// an element of a local array read through a copy of the array (for _, x := range [...]T{a, b}):
+		// what the array's element cell holds (the copy is represented by the literal's own element cell)
+		if x := eng.val(env, t.X); x.K == KSlice && x.Obj != 0 {
+			if _, have := env.cells[cellKey{x.Obj, x.Path}]; have {
+				v := eng.readAt(env, x.Obj, x.Path, t.Type())
+				v.Src = nil
+				env.vals[t] = eng.instantiate(env, v, t, "ix")
+				return []*Env{env}
+			}
+		}
 		env.vals[t] = eng.fromCF(env, defaultCF(t.Type(), 0), t.Type(), eng.instrKey(in))
 		return []*Env{env}
 	case *ssa.Lookup:
@@ -307,6 +317,11 @@ func (eng *Engine) arrayFullyInit(al *ssa.Alloc) bool {
 				set[i] = true
 			}
 		case *ssa.Slice, *ssa.DebugRef:
+		case *ssa.UnOp:
+			// the array read as a whole (ranged over by value): a read
+			if r.Op != token.MUL {
+				ok = false
+			}
 		default:
 			ok = false
 		}
@@ -599,6 +614,15 @@ func (eng *Engine) execUnOp(t *ssa.UnOp, env *Env) []*Env {
 		}
 		return []*Env{env}
 	case token.MUL:
+		// a local array literal read as a whole: the value stands for the literal's element cell
+		if al, isAl := t.X.(*ssa.Alloc); isAl {
+			if _, isArr := al.Type().Underlying().(*types.Pointer).Elem().Underlying().(*types.Array); isArr && eng.arrayFullyInit(al) {
+				if x := eng.val(env, al); x.K == KPtr && x.Obj != 0 {
+					env.vals[t] = AV{K: KSlice, Nil: nonNil, Obj: x.Obj, Path: x.Path + "[]"}
+					return []*Env{env}
+				}
+			}
+		}
 		// an element of a slice-backed local table of functions read with a known index
 		if tbl, idx, _, ok := tableElem(t); ok {
 			if iv := eng.val(env, idx); iv.K == KNum && len(iv.Set) == 1 {
